@@ -483,7 +483,15 @@ class Round:
                     lo = a.lo / b.hi
                 if a.hi is not None and a.hi >= 0 and a.lo is not None and a.lo >= 0:
                     hi = a.hi / b.lo
-                return self._between("divb", lo_t, hi_t, lo, hi)
+                r = self._between("divb", lo_t, hi_t, lo, hi)
+                # keep the monotone relation to the divisor at a few break points (the interval linearisation alone forgets
+                # that a divisor that turns out to be >= 1.1 on the path shrinks the quotient): b >= c => |a/b| <= |a|/c, b <= c => >=
+                u = _q(Fraction(1, 2 ** 53))
+                for c in (Fraction(1), Fraction(11, 10), Fraction(2)):
+                    if b.lo < c < b.hi:
+                        self.add(z3.And(z3.Implies(b.t >= _q(c), _abs(r.t) <= _abs(a.t) / _q(c) * (1 + u)),
+                                        z3.Implies(b.t <= _q(c), _abs(r.t) >= _abs(a.t) / _q(c) * (1 - u))), defines=r)
+                return r
             lb = self._solver_lower_bound(b)
             if lb is not None:
                 # b >= lb > 0 on this path (decided by the solver): a/b lies between 0 and a/lb
